@@ -46,6 +46,11 @@ def wild_defs(seed, n):
             if rnd.random() < 0.5:
                 named.append(lf("m"))
             named.append({"kind": "seq", "id": "g2", "arity": "one", "help": "", "group_help": "GROUP-second", "fields": [lf("q")]})
+            # a header may be a Doc of several styled fragments
+            if rnd.random() < 0.6:
+                g = rnd.choice([x for x in named if x.get("group_help")])
+                g["group_help"] += " of several styled words"
+                g["gh_cuts"] = sorted(rnd.sample([i for i in range(1, len(g["group_help"])) if g["group_help"][i - 1] == " "], rnd.randint(1, 3)))
         for it in named:
             if rnd.random() < 0.15:
                 it["hidden"] = True
